@@ -209,29 +209,200 @@ def case_tetra_midpoints(ctx):
     ctx.equal("volume_point_is_cell_centroid", np.asarray(pv)[0], (X[0] + X[1] + X[2] + X[3]) / 4)
 
 
-def case_merge(ctx):
-    """merge_duplicate_points on concrete data (np.unique(axis=0) needs numeric arrays)"""
+# --------------------------------------------------------------------------- concolic stubs
+def _floats(ctx, arr, env):
+    from symnp.sym import evalf, lift
+
+    flat = np.asarray(arr, dtype=object).reshape(-1)
+    vals = evalf([getattr(x, "n", None) or lift(x) for x in flat], env)
+    return np.array(vals, dtype=float).reshape(np.asarray(arr).shape)
+
+
+class Concolic:
+    """merge_duplicate_points (np.round + np.unique(axis=0): not symbolic) is executed CONCOLICALLY on symbolic points: the merge
+    pattern is computed by the real function at one sample of the domain; that every merged pair coincides on the WHOLE domain
+    (within the rounding step) becomes an obligation, and pairs left apart are covered by the no-duplicate-points obligation.
+    scipy.interpolate.griddata (used by fill_between for 1-D linear interpolation between two curves) is a contract stub."""
+
+    def __init__(self, ctx):
+        self.ctx = ctx
+        self.merged = []  # (p_i - p_j) component differences that must vanish
+
+    def __enter__(self):
+        import felupe.mesh._tools as T
+        import felupe.mesh._mesh as M
+        import felupe.mesh._container as C
+        from felupe.mesh._helpers import mesh_or_data
+
+        self.saved = [(T, "merge_duplicate_points", T.merge_duplicate_points), (M, "merge_duplicate_points", M.merge_duplicate_points), (C, "sweep", C.sweep), (T, "griddata", T.griddata)]
+        if not self.ctx.sym:
+            return self
+        real = T.merge_duplicate_points
+        ctx, outer = self.ctx, self
+
+        @mesh_or_data
+        def merge(points, cells, cell_type, decimals=None):
+            P = np.asarray(points)
+            if P.dtype != object:
+                return real(P, cells, cell_type, decimals=decimals)
+            rng = np.random.default_rng(12345)
+            env = {nm: rng.uniform(-1.0 if lo is None else float(lo), 1.0 if hi is None else float(hi)) for nm, (lo, hi) in ctx.vars.items()}
+            Pf = _floats(ctx, P, env)
+            with ctx.concrete():
+                pf_new, cells_new, _ = real(Pf, np.asarray(cells), cell_type, decimals=decimals)
+                # representative of every new point: first old point that maps to it
+                rounded = Pf if decimals is None else np.round(Pf, decimals)
+            reps = []
+            for k in range(len(pf_new)):
+                members = [i for i in range(len(Pf)) if np.array_equal(rounded[i], pf_new[k])]
+                reps.append(members[0])
+                for i in members[1:]:
+                    outer.merged.extend(list(P[i] - P[members[0]]))
+            return P[reps], cells_new, cell_type
+
+        def griddata(points, values, xi, **kw):
+            # contract: linear interpolation of the two rows of `values` given at points [-1, 1], evaluated at xi
+            assert list(points) == [-1, 1]
+            V = np.asarray(values)
+            from fractions import Fraction
+
+            out = np.empty((len(xi),) + V.shape[1:], dtype=object)
+            for k, t in enumerate(xi):
+                t = Fraction(float(t)) if not hasattr(t, "n") else t
+                out[k] = V[0] * ((1 - t) / 2) + V[1] * ((1 + t) / 2)
+            return out
+
+        T.merge_duplicate_points = merge
+        M.merge_duplicate_points = merge
+        C.sweep = merge
+        T.griddata = griddata
+        return self
+
+    def __exit__(self, *a):
+        for mod, name, val in self.saved:
+            setattr(mod, name, val)
+        return False
+
+
+def case_triangle(ctx, n):
+    """Triangle(a, b, c, n) with symbolic corners (a non-degenerate, positively oriented family)"""
+    a = np.array([ctx.var("a_0", -0.2, 0.2), ctx.var("a_1", -0.2, 0.2)], dtype=object if ctx.sym else float)
+    b = np.array([ctx.var("b_0", 0.8, 1.3), ctx.var("b_1", -0.2, 0.3)], dtype=object if ctx.sym else float)
+    c = np.array([ctx.var("c_0", -0.2, 0.3), ctx.var("c_1", 0.8, 1.3)], dtype=object if ctx.sym else float)
+    with Concolic(ctx) as cc:
+        mesh = fem.mesh.Triangle(a=tuple(a), b=tuple(b), c=tuple(c), n=n)
+    if ctx.sym:
+        ctx.equal("merged_points_coincide_on_the_whole_domain", np.array(cc.merged, dtype=object), np.zeros(len(cc.merged), dtype=int), tol=1e-10)
+    dV = dV_of(ctx, mesh)
+    area = ((b[0] - a[0]) * (c[1] - a[1]) - (b[1] - a[1]) * (c[0] - a[0])) / 2
+    ctx.equal("cells_tile_the_triangle_area", np.asarray(dV).sum(), area, tol=1e-9)
+    positive(ctx, "cells_positively_oriented", dV)
+    ctx.check_concrete("no_unused_points", sorted(np.unique(mesh.cells).tolist()) == list(range(mesh.npoints)))
+    ctx.check_concrete("point_and_cell_count", mesh.ncells == 3 * (n - 1) ** 2 and mesh.npoints == 3 * n * n - 3 * n + 1, "cells %d points %d" % (mesh.ncells, mesh.npoints))
+    P = np.asarray(mesh.points)
+    # barycentric coordinates of every point are >= 0 (inside the triangle), and each corner is a mesh point
+    lam = []
+    for p in range(mesh.npoints):
+        l1 = ((b[0] - P[p, 0]) * (c[1] - P[p, 1]) - (b[1] - P[p, 1]) * (c[0] - P[p, 0])) / (2 * area)
+        l2 = ((c[0] - P[p, 0]) * (a[1] - P[p, 1]) - (c[1] - P[p, 1]) * (a[0] - P[p, 0])) / (2 * area)
+        lam.append((l1, l2, 1 - l1 - l2))
+    eps = 1e-9
+    ctx.holds("points_inside_the_triangle", [(l > -eps) for t in lam for l in t] if ctx.sym else [bool(l > -eps) for t in lam for l in t])
+    # corners: the point with the largest barycentric weight at a sample IS the corner on the whole domain
+    for nm, corner, k in (("a", a, 0), ("b", b, 1), ("c", c, 2)):
+        if ctx.sym:
+            rng = np.random.default_rng(7)
+            env = {v: rng.uniform(float(lo), float(hi)) for v, (lo, hi) in ctx.vars.items()}
+            lf = _floats(ctx, np.array([t[k] for t in lam], dtype=object), env)
+        else:
+            lf = np.array([t[k] for t in lam], dtype=float)
+        best = int(np.argmax(lf))
+        ctx.equal("corner_%s_is_a_mesh_point" % nm, P[best], corner, tol=1e-10)
+    conds = []
+    for p, q_ in itertools.combinations(range(mesh.npoints), 2):
+        d0, d1 = P[p, 0] - P[q_, 0], P[p, 1] - P[q_, 1]
+        conds.append(((d0 > 0) | (d0 < 0) | (d1 > 0) | (d1 < 0)) if ctx.sym else bool(d0 != 0 or d1 != 0))
+    ctx.holds("no_duplicate_points", conds)
+
+
+def case_circle(ctx, n, sections):
+    """Circle: the generator mixes float tables in place with its arguments (points *= radius), so it runs concretely for the
+    enumerated (n, sections); radius and centre are applied symbolically afterwards (orientation, measure and duplicates of
+    the unit mesh are ground facts; the symbolic part is the similarity)"""
     with ctx.concrete():
-        a = fem.Rectangle(n=(3, 2))
-        b = fem.Rectangle(a=(1, 0), b=(2, 1), n=(3, 2))
-        b.points[:] = b.points + 1e-9  # nearly coincident interface points
+        m0 = fem.Circle(n=n, sections=list(sections))
+        P0 = m0.points.copy()
+        # boundary edges: edges that belong to exactly one cell
+        from collections import Counter
+
+        cnt = Counter()
+        for cell in m0.cells:
+            for i in range(4):
+                e = (int(cell[i]), int(cell[(i + 1) % 4]))
+                cnt[tuple(sorted(e))] += 1
+        outer = [e for e, k in cnt.items() if k == 1]
+    r = ctx.var("radius", 0.5, 3)
+    cpt = ctx.array("center", (2,), -2, 2)
+    from fractions import Fraction
+
+    ex = (lambda v: Fraction(float(v))) if ctx.sym else float
+    P = np.array([[cpt[i] + r * ex(P0[p, i]) for i in range(2)] for p in range(m0.npoints)], dtype=object if ctx.sym else float)
+    mesh = fem.Mesh(P, m0.cells, m0.cell_type)
+    dV = dV_of(ctx, mesh)
+    positive(ctx, "cells_positively_oriented", dV)
+    full = len(sections) == 4
+    if full:
+        # all outer edges are chords of the circle: end points at distance radius from the centre
+        on = sorted({p for e in outer for p in e})
+        ctx.equal("boundary_points_on_the_circle", np.array([(P[p, 0] - cpt[0]) ** 2 + (P[p, 1] - cpt[1]) ** 2 for p in on], dtype=object if ctx.sym else float), np.array([r * r] * len(on), dtype=object if ctx.sym else float), tol=1e-9)
+        # the cells tile the inscribed polygon: shoelace area of the boundary polygon (edges oriented as in their cell)
+        shoe = 0
+        for cell in m0.cells:
+            for i in range(4):
+                p, q_ = int(cell[i]), int(cell[(i + 1) % 4])
+                if tuple(sorted((p, q_))) in set(outer):
+                    shoe = shoe + (P[p, 0] * P[q_, 1] - P[q_, 0] * P[p, 1]) / 2
+        ctx.equal("cells_tile_the_inscribed_polygon", np.asarray(dV).sum(), shoe, tol=1e-9)
+    ctx.holds("points_inside_the_disc", [((P[p, 0] - cpt[0]) ** 2 + (P[p, 1] - cpt[1]) ** 2 <= r * r * (1 + 1e-9)) for p in range(m0.npoints)] if ctx.sym else [bool((P[p, 0] - cpt[0]) ** 2 + (P[p, 1] - cpt[1]) ** 2 <= r * r * (1 + 1e-9)) for p in range(m0.npoints)])
+    ctx.check_concrete("no_unused_points", sorted(np.unique(m0.cells).tolist()) == list(range(m0.npoints)))
+    with ctx.concrete():
+        dmin = min(float(np.abs(P0[p] - P0[q_]).max()) for p, q_ in itertools.combinations(range(m0.npoints), 2))
+    ctx.check_concrete("no_duplicate_points", dmin > 1e-6, "closest pair %.3g" % dmin)
+    ctx.check_concrete("cell_count", m0.ncells == 3 * (n - 1) ** 2 * len(sections), "cells %d" % m0.ncells)
+
+
+def case_merge(ctx, decimals):
+    """merge_duplicate_points itself on concrete data (np.unique(axis=0) needs numeric arrays): nearly coincident interface points
+    (off by 1e-3 of the rounding step) for every kind of `decimals`: None (exact duplicates only), 0, positive, negative"""
+    with ctx.concrete():
+        dec = decimals
+        step = 1.0 if dec is None else 10.0 ** (-dec)
+        # grid spacing 4 rounding steps; the second mesh is attached at x = 2 * (4 step) with a perturbation well inside the step
+        h = 4 * step
+        a = fem.Rectangle(b=(2 * h, h), n=(3, 2))
+        b = fem.Rectangle(a=(2 * h, 0), b=(4 * h, h), n=(3, 2))
+        if dec is not None:
+            b.points[:] = b.points + 1e-3 * step
         cat = fem.mesh.concatenate([a, b])
-        dec = 6
         m = cat.merge_duplicate_points(decimals=dec)
-        step = 10.0 ** (-dec)
         corners_before = cat.points[cat.cells]
         corners_after = m.points[m.cells]
         moved = np.abs(corners_before - corners_after).max()
-        rounded = np.round(m.points, dec)
+        rounded = m.points if dec is None else np.round(m.points, dec)
         distinct = len(np.unique(rounded, axis=0)) == len(rounded)
         vol_before = fem.RegionQuad(cat).dV.sum()
         vol_after = fem.RegionQuad(m).dV.sum()
         used = sorted(np.unique(m.cells).tolist()) == list(range(m.npoints))
-    ctx.check_concrete("no_corner_moves_more_than_the_rounding_step", bool(moved <= step))
+        closest = min(float(np.abs(m.points[p] - m.points[q_]).max()) for p, q_ in itertools.combinations(range(m.npoints), 2))
+        # via the container
+        cont = fem.MeshContainer([a, b], merge=True, decimals=dec)
+    ctx.check_concrete("no_corner_moves_more_than_the_rounding_step", bool(moved <= step * (1 + 1e-9)), "moved %.3g, step %.3g" % (moved, step))
     ctx.check_concrete("no_two_points_equal_after_rounding", bool(distinct))
-    ctx.check_concrete("no_unused_points_after_merge", bool(used) and m.npoints == 6 + 6 - 2)
+    ctx.check_concrete("no_two_points_closer_than_the_rounding_step", closest >= 0.5 * step, "closest pair %.3g, step %.3g" % (closest, step))
+    ctx.check_concrete("no_unused_points_after_merge", bool(used) and m.npoints == 6 + 6 - 2, "npoints %d" % m.npoints)
+    ctx.check_concrete("container_merge_shares_the_merged_points", len(cont.points) == 6 + 6 - 2 and all(mm.points is cont.points or np.array_equal(mm.points, cont.points) for mm in cont.meshes), "container npoints %d" % len(cont.points))
     s = ctx.var("s", 0.5, 2)
-    ctx.equal("measure_preserved_by_merge", s * float(vol_after), s * float(vol_before), tol=1e-6)
+    ctx.equal("measure_preserved_by_merge", s * float(vol_after), s * float(vol_before), tol=1e-2 * float(vol_before))
 
 
 def cases(tier):
@@ -244,5 +415,14 @@ def cases(tier):
         out.append(("transform", case_transform, {"op": op, "dim": 3, "max_paths": 64 if op in ("midpoints_volumes", "convert2") else 16}))
     out.append(("transform", case_transform, {"op": "revolve", "dim": 2, "max_paths": 16}))
     out.append(("tetra_midpoints", case_tetra_midpoints, {}))
-    out.append(("merge", case_merge, {}))
+    for dec in (None, 0, 6, 10, -1):
+        out.append(("merge", case_merge, {"decimals": dec}))
+    for n in (2, 3) if tier == "quick" else (2, 3, 4):
+        out.append(("triangle", case_triangle, {"n": n, "max_paths": 16}))
+    out.append(("circle", case_circle, {"n": 2, "sections": [0, 90, 180, 270]}))
+    out.append(("circle", case_circle, {"n": 3, "sections": [0, 90, 180, 270]}))
+    out.append(("circle", case_circle, {"n": 2, "sections": [0, 90]}))
+    if tier == "thorough":
+        out.append(("circle", case_circle, {"n": 4, "sections": [0, 90, 180, 270]}))
+        out.append(("circle", case_circle, {"n": 3, "sections": [90, 180, 270]}))
     return out
